@@ -138,6 +138,22 @@ def make_fn(sig, species='function', fn_name=None):
     cls_src = f'class {name}:\n' + '\n'.join('  ' + l for l in src.splitlines()) + '\n'
     exec(cls_src, ns)
     fn = ns[name]
+  elif species == 'duck_class':
+    # a class whose __eq__ is duck-typed (no class check): an instance compares equal to ANY
+    # object exposing equal attributes - in particular to the Config it was built from
+    src = sig_source(sig, '__init__').replace('def __init__(', 'def __init__(self, ', 1)
+    src = src.replace('self, )', 'self)')
+    src = src.replace("return Rec('__init__', ", 'self.rec = Rec(' + repr(name) + ', ')
+    eq = ('def __eq__(self, other):\n'
+          '  try:\n'
+          '    return all(getattr(other, n) == v for n, v in self.rec.slots)\n'
+          '  except Exception:\n'
+          '    return False\n'
+          '__hash__ = object.__hash__\n')
+    cls_src = (f'class {name}:\n' + '\n'.join('  ' + l for l in src.splitlines()) + '\n'
+               + '\n'.join('  ' + l for l in eq.splitlines()) + '\n')
+    exec(cls_src, ns)
+    fn = ns[name]
   elif species == 'classmethod':
     src = sig_source(sig, 'make').replace('def make(', 'def make(cls, ', 1).replace('cls, )', 'cls)')
     src = src.replace("Rec('make', ", 'Rec(' + repr(name) + ', ')
